@@ -35,6 +35,33 @@ EXTRA = [" ", "\x00", "\x1f", "\x7f", "ß", "∆", "Z", "0", "b",
          # C1 control characters: `char::is_control` holds of them, but they have no picture and must pass through unchanged
          "\u0080", "\u0085", "\u009b", "\u009f"]
 WIDTHS = ["a", "§", "中", "\u0301", "\n"]
+# character SEQUENCES whose display width is not the sum of the widths of their characters (emoji + skin tone, ZWJ family, text +
+# VS16, keycap, Arabic lam-alef): formatter.rs measures whole pieces with UnicodeWidthStr::width_cjk
+SEQ_ATOMS = ["\U0001F44D\U0001F3FD", "\U0001F468\u200d\U0001F469\u200d\U0001F467", "\u2600\ufe0f", "1\ufe0f\u20e3", "\u0644\u0627",
+             "a", "\n", "中"]
+SEQ_CHARS = set("".join(a for a in SEQ_ATOMS if len(a) > 1))
+
+
+class WTab(dict):
+    """character -> display cells (from the real crate), plus .st: run of >= 2 characters -> display cells of the STRING"""
+
+    def sw(self, t):
+        if len(t) >= 2:
+            w = self.st.get(t)
+            if w is not None:
+                return w
+        return sum(self[c] for c in t)
+
+
+def seq_corpus():
+    out = []
+    for a in SEQ_ATOMS:
+        out.append(a)
+        for b in SEQ_ATOMS:
+            out.append(a + b)
+    for a in SEQ_ATOMS[:5]:
+        out += ["a" + a + "b\n" + a, a + "\n" + a + "a", "中" + a + a]
+    return list(dict.fromkeys(out))
 
 # decidable classes of the candidate findings: name -> (classifier(kind, sb, a, b), what)
 CLASSES = {
@@ -68,7 +95,7 @@ def oracle_items(kind, sb, a, b, W):
          ('blank',) | ('mark', column, marks) | ('ell',) | ('row', number, text, text_inside_span or None)
        None for the empty input (nothing is demanded beyond not panicking)"""
     def wd(bs):
-        return sum(W[c] for c in vis(bs.decode("utf8")))
+        return W.sw(vis(bs.decode("utf8")))
     lines = split_lines(sb)
     if not lines:
         return None
@@ -296,14 +323,26 @@ def build_harness(ctx):
     return os.path.join(out, "unitfmt") if ok else None
 
 
-def width_table(exe, chars):
-    """display widths (width_cjk, as formatter.rs calls it) of the given characters, from the real crate"""
+def width_table(exe, chars, strings=()):
+    """display widths (width_cjk, as formatter.rs calls it) of the given characters, from the real crate; for the given strings
+    also the width of every run of two or more characters of each of their (visualized) lines"""
     s = "".join(sorted(set(chars)))
     rc, so, se = run([exe], input="W %s\n" % hx(s.encode("utf8")), timeout=60)
-    W = {}
+    W = WTab()
+    W.st = {}
     for item in so.strip().split(","):
         cp, wc, _w = item.split(":")
         W[chr(int(cp))] = int(wc)
+    strings = sorted(set(strings))
+    if strings:
+        vlines = sorted({vis(l.decode("utf8")) for t in strings for l in split_lines(t.encode("utf8"))})
+        q = "".join("X %s\n" % hx(l.encode("utf8")) for l in vlines)
+        rc, so, se = run([exe], input=q, timeout=300)
+        for line in so.split("\n"):
+            for item in line.split(","):
+                if ":" in item:
+                    h, w = item.split(":")
+                    W.st[bytes.fromhex(h).decode("utf8")] = int(w)
     return W
 
 
@@ -316,7 +355,7 @@ def chunk_worker(args):
     """one shard: run harness and model, T2 / T3 / T4; returns a summary dict"""
     (idx, lines, exe, drv, flags, tline, W, suppress) = args
     rc1, impl, se1 = run_lines([exe], lines)
-    mlines = [tline] + ["%s %s %s" % (l[0], flags, l[2:]) for l in lines]
+    mlines = tline.split("\n") + ["%s %s %s" % (l[0], flags, l[2:]) for l in lines]
     rc2, model, se2 = run_lines([drv], mlines)
     res = {"n": len(lines), "errors": [], "t2": [], "t2n": 0, "t3": {}, "t3n": {}, "t4": [], "t4n": 0,
            "hist": {}, "nontrivial": 0, "panics": 0, "samples": []}
@@ -404,7 +443,7 @@ def decode_answer(ans):
 def coq_crosscheck(ctx, drv, tline, W, flags, sample):
     """the same sample through `vm_compute` inside coqc: the extraction computes what the Coq term computes"""
     os.makedirs(WORK, exist_ok=True)
-    mlines = [tline] + ["%s %s %s" % (l[0], flags, l[2:]) for l in sample]
+    mlines = tline.split("\n") + ["%s %s %s" % (l[0], flags, l[2:]) for l in sample]
     rc, model, se = run_lines([drv], mlines)
     if rc != 0 or len(model) != len(sample):
         ctx.oblige("vm_compute cross-check of the extraction", False, "driver failed")
@@ -414,8 +453,9 @@ def coq_crosscheck(ctx, drv, tline, W, flags, sample):
         return "[" + "; ".join(str(x) for x in bs) + "]"
     v = ["From Coq Require Import List NArith.", "From PT Require Import Model.Base Model.Format.",
          "Import ListNotations.", "Open Scope N_scope.",
-         "Definition w (c : N) : nat := match c with %s | _ => 1%%nat end." %
+         "Definition wc (c : N) : nat := match c with %s | _ => 1%%nat end." %
          " ".join("| %d => %d%%nat" % (ord(c), W[c]) for c in sorted(W)),
+         "Definition w (t : list N) : nat := list_sum (map wc t).",
          "Definition obs (r : fr (list piece)) : option (list N) * nat :=",
          "  match r with ROk ps => (Some (flat_rec ps), 0%nat) | RPanic => (None, 1%nat) | RFuel => (None, 2%nat) end."]
     fa = "true" if flags[0] == "1" else "false"
@@ -471,14 +511,20 @@ def check(ctx):
     for s in ["123\n456\n789\n", "123\r\n456\r\n789\r\n", "123\n456\n789\nabc\ndef\nghi\n", "ß\n∆\n中\n"]:
         lines += cases_of(s)
     lines += random_corpus(Rng(ctx.seed).fork("C14-texts"), 300 if quick else 3000)
+    seq_strings = seq_corpus()
+    for s in seq_strings:
+        lines += cases_of(s)
     lines = list(dict.fromkeys(lines))
 
     allchars = set(ALPHA + EXTRA)
     for h in {l.split(" ")[1] for l in lines}:
         allchars.update((b"" if h == "-" else bytes.fromhex(h)).decode("utf8"))
-    W = width_table(exe, set(vis("".join(allchars))) | allchars)
+    W = width_table(exe, set(vis("".join(allchars))) | allchars, seq_strings)
     tline = "T " + ",".join("%d:%d" % (ord(c), w) for c, w in sorted(W.items()))
+    tline += "\nX " + ",".join("%s:%d" % (t.encode("utf8").hex(), w) for t, w in sorted(W.st.items()))
     ctx.coverage["width_table"] = {("U+%04X" % ord(c)): w for c, w in sorted(W.items())}
+    ctx.coverage["string_width_entries"] = len(W.st)
+    ctx.coverage["string_widths_that_are_not_the_sum"] = sum(1 for t, w in W.st.items() if w != sum(W[c] for c in t))
 
     kf = [f for f in load_known_findings() if f.get("property") == PID and f.get("status") == "known"]
     suppress = {f.get("class") for f in kf if f.get("class") in CLASSES}
@@ -561,7 +607,7 @@ def check(ctx):
     # extraction cross-check on a seeded sample
     rng = Rng(ctx.seed).fork("C14-xcheck")
     sample = [lines[rng.below(len(lines))] for _ in range(40)] + ["S - 0 0", "S 610a62 2 3", "P 61 1"]
-    sample = [l for l in sample if len(l) < 200]
+    sample = [l for l in sample if len(l) < 200 and not (SEQ_CHARS & set(parse_case(l)[1].decode("utf8")))]
     coq_crosscheck(ctx, drv, tline, W, flags, sample)
     if not all(o for _, o, _ in ctx.obligations) and not ctx.violations:
         ctx.violation("an obligation of the C14 check failed", {"broken": [n for n, o, _ in ctx.obligations if not o]},
@@ -569,9 +615,10 @@ def check(ctx):
 
     return ctx.finish(level="proof", trusted_base=tb.BASE + [
         "Model/Format.v is a hand-written model of main/src/formatter.rs (tied by T2 on every explored case)",
-        "the display width of a string is taken as the sum of the widths of its characters; character widths are "
-        "read from the real unicode-width crate for the tested alphabet (unicode-width 0.1.14 deviates from the sum "
-        "only for emoji / variation-selector sequences, which are outside the explored inputs)",
+        "the display width of a string is an arbitrary function in the theorems; in the runs character widths are read from the real "
+        "unicode-width crate for the tested alphabet, and for the sequence corpus (emoji + modifier, ZWJ, VS16, keycap, lam-alef: where "
+        "unicode-width deviates from the sum over the characters) the width of every run of characters of every line as well; other runs "
+        "are measured as the sum of their characters (T2 would show a deviation)",
         "the line iterator of the model searches LF on bytes (equivalent to the char_indices search on valid UTF-8)",
     ])
 
@@ -592,7 +639,7 @@ def replay_case(rep):
         return True, "harness failed", ""
     ip = dict(x.split("=", 1) for x in impl[0].split(" ") if "=" in x)
     chars = set(sb.decode("utf8")) | set("0123456789 |^v.")
-    W = width_table(exe, set(vis("".join(chars))) | chars)
+    W = width_table(exe, set(vis("".join(chars))) | chars, [sb.decode("utf8")])
     why = t3_verdict(kind, sb, a, b, ip["D"], ip["R"], W)
     return why is not None, decode_answer(impl[0]), why or "meets the statement"
 
